@@ -110,6 +110,19 @@ def srcRunGarbage : List TSync :=
 def resolveDefer (body : List TSync) : List TSync :=
   body.filter isSync ++ (if body.contains .deferRUnlock then [.deferRUnlock] else [])
 
+/-- `a` occurs before `b`. -/
+def before (a b : TSync) (l : List TSync) : Bool :=
+  match l.idxOf? a, l.idxOf? b with
+  | some i, some j => i < j
+  | _, _ => false
+
+/-- In the model the Run goroutine waits for the subscribers (`uNotify`) while it holds the write
+lock, and cannot pass while a subscriber is stalled. -/
+def modelNotifiesUnderLock : Bool :=
+  let s : St := { running := true, wHeld := true, bundle := some 1, file := .ver 1, run := .uNotify false }
+  (step s .run).isSome && (step { s with subBlocked := true } .run).isNone &&
+  (match step { s with run := .uSet false 1 } .run with | some t => t.run == .uNotify false && t.wHeld | none => false)
+
 def follows (a b : TSync) : List TSync → Bool
   | x :: y :: rest => (x == a && y == b) || follows a b (y :: rest)
   | _ => false
